@@ -383,6 +383,46 @@ func runBuild(c *Ctx) {
 			}
 		}
 		c.R.Add("VSET", "SignatureValues|each-field-from-its-own-value", core.FuncName(m), p.Pos(m.Pos()), ok, "rendering sets each struct field from the value with that index (its value, or zero when unset)", fmt.Sprintf("ok=%v", ok))
+		// the positional (lifted) form: every element written into the rendered list is the value-or-zero of the set's
+		// value whose own index addresses the slot (an unset value renders as the zero of its type, never as an invalid
+		// reflect.Value, which reflect.MakeFunc / Call refuse)
+		nSlots, badSlot := 0, ""
+		p.RegionInstrs(m, func(in ssa.Instruction) {
+			st, isS := in.(*ssa.Store)
+			if !isS {
+				return
+			}
+			ia, isI := st.Addr.(*ssa.IndexAddr)
+			if !isI || core.TypeStr(ia.X.Type()) != "[]reflect.Value" {
+				return
+			}
+			if _, isCall := core.Strip(st.Val).(*ssa.Call); !isCall {
+				if _, isLoad := core.Strip(st.Val).(*ssa.UnOp); !isLoad {
+					return // e.g. the struct value of the non-positional form
+				}
+			}
+			nSlots++
+			vcl, isV := core.Strip(st.Val).(*ssa.Call)
+			if !isV || !isValueOrZero(vcl) {
+				badSlot = "slot at " + p.InstrPos(in) + " receives " + core.Path(st.Val) + ", not the value-or-zero of a value"
+				return
+			}
+			if len(vcl.Common().Args) > 0 {
+				if ifr, isF := core.AsFieldLoad(ia.Index); isF && ifr.Field == "index" {
+					e := ifr.Base
+					if fa, ok2 := e.(*ssa.FieldAddr); ok2 {
+						e = fa.X
+					}
+					if e != vcl.Common().Args[0] {
+						badSlot = "slot at " + p.InstrPos(in) + " is addressed by the index of another value"
+					}
+				}
+			}
+		})
+		if nSlots > 0 {
+			c.R.Add("VSET", "SignatureValues|positional-slots-hold-value-or-zero", core.FuncName(m), p.Pos(m.Pos()), badSlot == "",
+				"the positional rendering fills each slot with the value at that index, or the zero of its type when unset (never an invalid reflect.Value)", ternary(badSlot == "", fmt.Sprintf("%d slot store(s)", nSlots), badSlot))
+		}
 	}
 	if m := p.Method(p.Arg, "Value", "valueOrZero"); m != nil {
 		c.R.Func(core.FuncName(m))
